@@ -2,7 +2,7 @@
    fr_poll / fr_drain: the model of tokio_util's FramedImpl::poll_next over ImapCodec::decode (Client.v).
    Frames S fs st rem: parsing the whole stream S in one piece yields the frames fs and then stops on rem,
    incomplete (StopInc) or malformed (StopErr).  Scripts are arbitrary lists of chunks and not-ready results. *)
-From TI Require Import Bytes Grammar Nom Interp Natives Client ClientProofs.
+From TI Require Import Bytes Grammar Nom Interp Natives Tags Builders Client ClientProofs SessionProofs.
 
 Theorem c04_frames_chunking_invariant : forall fuel rd fs o st' rd',
   data_only rd -> fr_drain fuel rf_init rd = (fs, o, st', rd') ->
@@ -87,3 +87,9 @@ Proof. exact Frames_det. Qed.
 Check c04_frames_deterministic : forall S fs st rem, Frames S fs st rem ->
   forall fs' st' rem', Frames S fs' st' rem' -> fs = fs' /\ st = st' /\ rem = rem'.
 Print Assumptions c04_frames_deterministic.
+
+(* a frame never ends inside a line: whatever the codec cuts off ends with CR LF *)
+Theorem c04_frames_end_with_crlf : forall buf raw v rest, decode buf = DFrame raw v rest -> exists w0, raw = w0 ++ [13; 10].
+Proof. exact frame_ends_with_crlf_lemma. Qed.
+Check c04_frames_end_with_crlf : forall buf raw v rest, decode buf = DFrame raw v rest -> exists w0, raw = w0 ++ [13; 10].
+Print Assumptions c04_frames_end_with_crlf.
